@@ -18,9 +18,28 @@ type lineLimitReader struct {
 	curLineLength int
 }
 
+// exceeded reports whether the current line has outgrown the limit. It is
+// sticky, and safe to call on a nil reader.
+func (r *lineLimitReader) exceeded() bool {
+	return r != nil && r.LineLimit > 0 && r.curLineLength > r.LineLimit
+}
+
 func (r *lineLimitReader) Read(b []byte) (int, error) {
-	if r.curLineLength > r.LineLimit && r.LineLimit > 0 {
+	if r.exceeded() {
 		return 0, ErrTooLongLine
+	}
+
+	if r.LineLimit > 0 {
+		// Never read further than the current line may still grow: this
+		// reader sits below a buffer, and whoever parses the lines may lift
+		// the limit (BDAT payload) before asking for the octets that follow.
+		max := r.LineLimit - r.curLineLength
+		if max < 1 {
+			max = 1
+		}
+		if len(b) > max {
+			b = b[:max]
+		}
 	}
 
 	n, err := r.R.Read(b)
@@ -29,6 +48,7 @@ func (r *lineLimitReader) Read(b []byte) (int, error) {
 	}
 
 	if r.LineLimit == 0 {
+		r.curLineLength = 0
 		return n, nil
 	}
 
